@@ -92,13 +92,20 @@ class SGen:
         k = r.random()
         if k < 0.45:
             return F(e, self.pick(["lower", "string", "trim", "default"]))
-        if k < 0.7:
+        if k < 0.66:
             return ["bin", "~", N(self.pv()), e]
-        if k < 0.8:
+        if k < 0.73:
             return ["bin", "~", C("&amp;<"), e]
-        if k < 0.9:
+        if k < 0.8:
             # a plain subject with markup characters, the fragment as the replacement
             return ["filter", C("<Z>&amp;"), "replace", [C("Z"), e], []]
+        if k < 0.93:
+            # eval-context filters applied BY NAME through map: they must see the escaping
+            # mode that is in force where the expression is evaluated
+            self.feat.add("evalctx_filter_via_map")
+            inner = ["filter", ["list", [["list", [e, C("<x>")]], ["list", [C("&amp;y"), N(self.pv())]]]],
+                     "map", [C("join"), C("-")] if r.random() < 0.6 else [C("join")], []]
+            return ["filter", inner, "join", [C(",")], []]
         return ["bin", "~", F(e, "lower"), C("<t>")]
 
     def out_expr(self, st):
